@@ -85,7 +85,7 @@ P("C06",
      "then started on a storage stub that refuses files above 32 MiB: add/start/close return within the watchdog, the torrent settles in Downloading / Seeding / Stopped, and what "
      "it reports is well-formed (piece length > 0, >= 1 piece, non-negative file lengths summing to the total, pieces x piece length brackets the total) and within the "
      "configured limits; an unmodified valid torrent within the limits is accepted through every door",
-     Q(320, 16, 900), T(9600, 16), shrinktime="20s"),
+     Q(320, 16, 300), T(9600, 16), shrinktime="20s"),
   ])
 
 P("C07",
